@@ -255,12 +255,13 @@ const (
 	KMVInt
 	KPI
 	KPSInt
+	KPDur
 	kindCount
 )
 
 var kindNames = [...]string{"int", "int8", "uint16", "float64", "string", "bool", "duration", "*int", "*string", "VInt", "VStr",
 	"UStr", "UInt", "UBool", "UFloat", "UAny", "UCfg", "[]int", "[]string", "[]VInt", "[2]int", "map[string]int", "map[string]interface{}",
-	"interface{}", "*Config", "DInt", "Inner", "*Inner", "struct", "*struct", "[]struct", "map[string]struct", "inline-struct", "float32", "map[string][]int", "map[string]VInt", "PI", "*[]int"}
+	"interface{}", "*Config", "DInt", "Inner", "*Inner", "struct", "*struct", "[]struct", "map[string]struct", "inline-struct", "float32", "map[string][]int", "map[string]VInt", "PI", "*[]int", "*duration"}
 
 func (k Kind) String() string { return kindNames[k] }
 
@@ -272,6 +273,7 @@ var (
 var leafTypes = map[Kind]reflect.Type{
 	KInt: reflect.TypeOf(int(0)), KInt8: reflect.TypeOf(int8(0)), KUint16: reflect.TypeOf(uint16(0)), KF64: reflect.TypeOf(float64(0)),
 	KStr: reflect.TypeOf(""), KBool: reflect.TypeOf(false), KDur: reflect.TypeOf(time.Duration(0)), KF32: reflect.TypeOf(float32(0)), KMSlice: reflect.TypeOf(map[string][]int(nil)),
+	KPDur:  reflect.TypeOf((*time.Duration)(nil)),
 	KMVInt: reflect.TypeOf(map[string]VInt(nil)), KPI: reflect.TypeOf(PI(0)), KPSInt: reflect.TypeOf((*[]int)(nil)),
 	KPInt: reflect.TypeOf((*int)(nil)), KPStr: reflect.TypeOf((*string)(nil)),
 	KVInt: reflect.TypeOf(VInt(0)), KVStr: reflect.TypeOf(VStr("")),
@@ -290,6 +292,7 @@ type Field struct {
 	ID       string // simcheck id, unique per run
 	Policy   string // "", "replace", "append", "prepend" (slices)
 	Required bool
+	Bound    string  // a built-in validator of the tag: "", "min=8", "max=50", "nonzero", "positive" (durations: "min=8s", "max=30s")
 	Sub      *Struct // for struct-like kinds
 }
 
@@ -323,6 +326,9 @@ func (s *Struct) build() {
 			tag += "," + f.Policy
 		}
 		val := "simcheck=" + f.ID
+		if f.Bound != "" {
+			val = f.Bound + "," + val
+		}
 		if f.Required {
 			val = "required," + val
 		}
